@@ -164,7 +164,7 @@ _mk_header(False)
 _mk_header(True)
 
 
-@harness('C06', 'header-too-long', functions=[SG + 'SegmentCodec.encode_header'])
+@harness('C06', 'header-too-long', functions=[SG + 'SegmentCodec.encode_header'], native='contracts.native.c06:replay')
 def too_long(vc):
     """ensures payload_length > 128KiB-1 raises DriverException and writes nothing"""
     from cassandra import DriverException
@@ -326,7 +326,7 @@ def segment_roundtrip(vc):
     vc.check('post/segment_length-is-bytes-on-the-wire', get_attr(vc.ctx, hdr, 'segment_length') == wire.length())
 
 
-@harness('C06', 'payload-crc-checked', functions=[SG + 'SegmentCodec.decode'])
+@harness('C06', 'payload-crc-checked', functions=[SG + 'SegmentCodec.decode'], native='contracts.native.c06:replay')
 def payload_crc(vc):
     """ensures decode raises CrcException whenever the trailing CRC32 differs from crc32(payload bytes read)"""
     from cassandra.segment import CrcException, SegmentHeader
@@ -350,7 +350,7 @@ def payload_crc(vc):
         vc.check('post/accepted-only-on-match', good)
 
 
-@harness('C06', 'encode-chunking', functions=[SG + 'SegmentCodec.encode'])
+@harness('C06', 'encode-chunking', functions=[SG + 'SegmentCodec.encode'], native='contracts.native.c06:replay')
 def chunking(vc):
     """ensures encode splits a message into payloads whose concatenation is the message, each 1..MAX bytes, and marks them
     self-contained iff there is exactly one.  The code is parametric in Segment.MAX_PAYLOAD_LENGTH (read once per use, only
